@@ -432,6 +432,14 @@ type c11FWorld struct {
 	fullFD  int
 	roFD    int
 	haveFul bool
+	cls     map[string]string // other monitors reuse the judge under their own class names
+}
+
+func (fw *c11FWorld) class(c string) string {
+	if m, ok := fw.cls[c]; ok {
+		return m
+	}
+	return c
 }
 
 func (fw *c11FWorld) reload(mount string) error {
@@ -715,6 +723,7 @@ type c11FaultCtx struct {
 	step   int
 	st     c11FaultStep
 	faults []string
+	info   map[string]any // added to every witness
 }
 
 func (fw *c11FWorld) witness(fc *c11FaultCtx, res *c11Result, extra map[string]any) map[string]any {
@@ -729,6 +738,9 @@ func (fw *c11FWorld) witness(fc *c11FaultCtx, res *c11Result, extra map[string]a
 	m := map[string]any{"scenario": fc.sc.ID, "devices": fc.sc.Devices, "step": fc.step, "request_kind": fc.st.Kind, "carry_over": fc.st.Carry, "faults_in_effect": fc.faults,
 		"request_id": res.ID, "events": evs, "client_saw": r, "client_error": res.isErr(), "targets": fw.states(),
 		"request_entry_held_by": fw.holding("request", res.ID), "response_entry_held_by": fw.holding("response", res.ID)}
+	for k, v := range fc.info {
+		m[k] = v
+	}
 	for k, v := range extra {
 		m[k] = v
 	}
@@ -759,11 +771,11 @@ func (fw *c11FWorld) judge(fc *c11FaultCtx, res *c11Result, label string, backen
 		case strings.HasPrefix(e.Note, "held-by:"):
 			r.Count("handler_entries_with_request_entry_already_persisted", 1)
 		case e.Note == "not-held":
-			r.Violate("C11-routed-without-persisted-request-entry", fc.sc.ID, what+": backend "+e.Mount+" was entered ("+e.Op+" "+e.Path+") while no enabled audit device held the request entry (targets read back at handler entry)", fw.witness(fc, res, nil))
+			r.Violate(fw.class("C11-routed-without-persisted-request-entry"), fc.sc.ID, what+": backend "+e.Mount+" was entered ("+e.Op+" "+e.Path+") while no enabled audit device held the request entry (targets read back at handler entry)", fw.witness(fc, res, nil))
 		}
 	}
 	if nBackend > 0 && !reqHeld {
-		r.Violate("C11-routed-without-persisted-request-entry", fc.sc.ID, what+": the request was routed to a backend, yet no enabled audit device holds its request entry", fw.witness(fc, res, nil))
+		r.Violate(fw.class("C11-routed-without-persisted-request-entry"), fc.sc.ID, what+": the request was routed to a backend, yet no enabled audit device holds its request entry", fw.witness(fc, res, nil))
 	}
 	leaked := ""
 	for _, s := range backendSecrets {
@@ -776,7 +788,7 @@ func (fw *c11FWorld) judge(fc *c11FaultCtx, res *c11Result, label string, backen
 	if gotData {
 		r.Count("client_received_data", 1)
 		if !respHeld {
-			r.Violate("C11-returned-without-persisted-response-entry", fc.sc.ID, what+": response data reached the client, yet no enabled audit device holds the response entry", fw.witness(fc, res, map[string]any{"secret_seen_by_client": leaked}))
+			r.Violate(fw.class("C11-returned-without-persisted-response-entry"), fc.sc.ID, what+": response data reached the client, yet no enabled audit device holds the response entry", fw.witness(fc, res, map[string]any{"secret_seen_by_client": leaked}))
 		} else {
 			r.Count("delivered_with_persisted_entries", 1)
 		}
@@ -795,7 +807,7 @@ func (fw *c11FWorld) judge(fc *c11FaultCtx, res *c11Result, label string, backen
 		}
 		switch {
 		case !res.isErr() && !(gotData && !respHeld): // (data without a held response entry is reported above)
-			r.Violate("C11-no-error-without-persisted-entry", fc.sc.ID, what+": no enabled audit device holds the entry, yet the client did not receive an error", fw.witness(fc, res, nil))
+			r.Violate(fw.class("C11-no-error-without-persisted-entry"), fc.sc.ID, what+": no enabled audit device holds the entry, yet the client did not receive an error", fw.witness(fc, res, nil))
 		case res.isErr() && leaked == "":
 			r.Count("error_without_secret_and_no_holder", 1)
 			if !reqHeld && nBackend == 0 {
